@@ -26,6 +26,7 @@ ASSUMPTIONS = [
 OUTSIDE = ["more preemptions than the bound", "real OS scheduling / timing", "crashes (C17)"]
 
 INITIAL = b"init"
+INITIAL_B = b"second"
 FILES = ["a", "b"]
 
 
@@ -144,6 +145,11 @@ def concurrent(o1: int, o2: int, o3: int, o4: int, o5: int, o6: int,
         for f in FILES[:1]:
             fs.put("/" + f if real_dir is None else f, INITIAL) if hasattr(fs, "put") else fs.files.__setitem__("/" + f, INITIAL)
         initial = {FILES[0]: INITIAL, FILES[1]: None}
+        if CFG.get("both_files"):
+            # memory-pressure family: both files exist, the limit holds one of them plus a little: completions evict
+            f = FILES[1]
+            fs.put(f, INITIAL_B) if hasattr(fs, "put") else fs.files.__setitem__("/" + f, INITIAL_B)
+            initial[f] = INITIAL_B
         ex = S.Executor(sch)
         M.install(FC, fs if real_dir is None else M.ModelFS(), executor=ex)
         if real_dir is not None:
@@ -317,6 +323,11 @@ def obligations(tier):
                         "fn": "concurrent", "cfg": {"shape": [1, 1], "preemptions": 2, "fixed_ops": [a], "ops_domain": [0, 2, 4],
                                                     "lock_points": True, "points": ["open-r", "read", "open-w", "write"]}, "timeout": 400})
     else:
+        if True:
+            for b in (0, 1, 3):
+                obs.append({"name": "memory pressure: two existing files, limit 8 bytes, clients [update a | %s | get a]" % (OPS[b],), "fn": "concurrent",
+                            "cfg": {"shape": [1, 1, 1], "preemptions": 2, "fixed_ops": [2, b, 0], "both_files": True, "maxmem": 8,
+                                    "points": ["open-w", "write", "read"]}, "timeout": 3000})
         for a in range(6):
             for b in range(6):
                 obs.append({"name": "clients [2 | 2], first ops %s %s" % (OPS[a], OPS[b]), "fn": "concurrent",
@@ -325,6 +336,8 @@ def obligations(tier):
                             "cfg": {"shape": [1, 1, 1], "preemptions": 3, "fixed_ops": [a, b]}, "timeout": 3000})
                 obs.append({"name": "clients [2 | 1] 3 preemptions, first ops %s %s" % (OPS[a], OPS[b]), "fn": "concurrent",
                             "cfg": {"shape": [2, 1], "preemptions": 3, "fixed_ops": [a, b]}, "timeout": 3000})
+                obs.append({"name": "memory pressure [1 | 1 | 1], first ops %s %s" % (OPS[a], OPS[b]), "fn": "concurrent",
+                            "cfg": {"shape": [1, 1, 1], "preemptions": 2, "fixed_ops": [a, b], "both_files": True, "maxmem": 8}, "timeout": 3000})
     return obs
 
 
